@@ -49,7 +49,7 @@ Definition go_roman (T : tables) (colon : bool) (digits : text) : option text :=
   match digits with
   | [] => None
   | d0 :: _ =>
-    if ascii_eqb d0 "-" then None                                        (* number too small *)
+    if ascii_eqb d0 "-" || (Nat.eqb (List.length digits) 1 && ascii_eqb d0 "0") then None   (* number too small *)
     else if Nat.ltb 4 (List.length digits) || (Nat.ltb 3 (List.length digits) && (code "3" <? code d0)%N)
     then None                                                            (* number too large *)
     else Some (List.concat (rev (go_roman_loop (if colon then t_oldroman T else t_roman T) (rev digits) 0)))
